@@ -30,14 +30,21 @@ Proof.
   apply in_seq. lia.
 Qed.
 
-Lemma tag_macros_sweep : forallb tag_macros_ok (zrange 65536) = true.
+Lemma tag_macros_sweep :
+  forallb (fun hi => forallb (fun lo => tag_macros_ok (hi * 256 + lo)) (zrange 256)) (zrange 256) = true.
 Proof. vm_compute. reflexivity. Qed.
 
 Lemma tag_macros_agree : forall t, 0 <= t < 65536 ->
   BASETAG t = base_tag t /\ (SPECIALTAG t <> 0 <-> is_special t = true) /\
   (0 < t < 16384 -> base_tag (MKSPECIALTAG t) = t /\ is_special (MKSPECIALTAG t) = true).
 Proof.
-  intros t Ht. pose proof (proj1 (forallb_forall _ _) tag_macros_sweep t (zrange_In _ _ Ht)) as H.
+  intros t Ht.
+  assert (0 <= t / 256 < 256) as Hhi by (split; [apply Z.div_pos; lia | apply Z.div_lt_upper_bound; lia]).
+  pose proof (Z.mod_pos_bound t 256 ltac:(lia)) as Hlo.
+  pose proof (proj1 (forallb_forall _ _) tag_macros_sweep (t / 256) (zrange_In _ _ Hhi)) as H.
+  cbv beta in H.
+  pose proof (proj1 (forallb_forall _ _) H (t mod 256) (zrange_In _ _ Hlo)) as H'. clear H. rename H' into H.
+  cbv beta in H. replace (t / 256 * 256 + t mod 256) with t in H by (rewrite Z.mul_comm; apply Z.div_mod; lia).
   unfold tag_macros_ok in H. apply andb_true_iff in H. destruct H as [H H3].
   apply andb_true_iff in H. destruct H as [H1 H2].
   apply Z.eqb_eq in H1. apply Bool.eqb_prop in H2. split; [exact H1|]. split.
@@ -267,4 +274,332 @@ Proof.
   rewrite !(Z.mod_small (_ + 2147483648) 4294967296) by lia.
   replace (b1 + 2147483648 - 2147483648) with b1 by lia. replace (b2 + 2147483648 - 2147483648) with b2 by lia.
   rewrite lor4_bytes by assumption. f_equal. apply Z.mod_small. unfold be32. lia.
+Qed.
+
+(* ================================================================================================== *)
+(** * 3. The model's encoders use exactly the macros the source uses, in the source's order
+      (every lemma of this section is closed by [reflexivity] over the lists regenerated from the C text:
+      a change of width, signedness or order in a writer breaks it) *)
+
+Lemma seq_names :
+  map snd DDENCODE_seq = ["tag"; "ref"; "offset"; "length"]%string /\
+  map snd HTPsync_seq = ["block->ndds"; "block->nextoffset"]%string /\
+  map snd HLcreate_seq = ["SPECIAL_LINKED"; "info->length"; "block_length"; "number_blocks"; "link_ref"]%string /\
+  map snd HLgetdatainfo_seq = ["total_length"; "block_length"; "num_blocks"; "link_ref"]%string /\
+  map snd HXcreate_seq = ["SPECIAL_EXT"; "info->length"; "info->extern_offset"; "info->length_file_name"]%string /\
+  map snd HCIwrite_header_seq = ["SPECIAL_COMP"; "COMP_HEADER_VERSION"; "info->length"; "(uint16)info->comp_ref"]%string /\
+  map snd (firstn 10 HCPencode_header_seq) =
+    ["(uint16)model_type"; "(uint16)coder_type"; "c_info->nbit.nt"; "(uint16)c_info->nbit.sign_ext";
+     "(uint16)c_info->nbit.fill_one"; "(int32)c_info->nbit.start_bit"; "(int32)c_info->nbit.bit_len";
+     "(uint32)c_info->skphuff.skp_size"; "(uint32)c_info->skphuff.skp_size"; "(uint16)c_info->deflate.level"]%string /\
+  map snd HMCcreate_seq =
+    ["SPECIAL_CHUNKED"; "info->sp_tag_header_len"; "info->flag"; "info->length"; "info->chunk_size"; "info->nt_size";
+     "info->chktbl_tag"; "info->chktbl_ref"; "info->sp_tag"; "info->sp_ref"; "info->ndims"; "(info->ddims[j].flag)";
+     "(info->ddims[j].dim_length)"; "(info->ddims[j].chunk_length)"; "(info->fill_val_len)"; "SPECIAL_COMP";
+     "info->comp_sp_tag_head_len"]%string /\
+  map snd vpackvs_seq =
+    ["vs->interlace"; "vs->nvertices"; "vs->wlist.ivsize"; "vs->wlist.n"; "vs->wlist.type[i]"; "vs->wlist.isize[i]";
+     "vs->wlist.off[i]"; "vs->wlist.order[i]"; "slen"; "slen"; "slen"; "vs->extag"; "vs->exref"; "vs->version";
+     "vs->more"; "vs->flags"; "vs->nattrs"; "vs->alist[i].findex"; "vs->alist[i].atag"; "vs->alist[i].aref";
+     "vs->version"; "vs->more"]%string /\
+  map snd vpackvg_seq =
+    ["vg->nvelt"; "vg->tag[i]"; "vg->ref[i]"; "temp_len"; "temp_len"; "vg->extag"; "vg->exref"; "vg->flags";
+     "vg->nattrs"; "vg->alist[i].atag"; "vg->alist[i].aref"; "vg->version"; "vg->more"]%string.
+Proof. repeat split; reflexivity. Qed.
+
+Notation U16 := UINT16ENCODE_bytes.
+Notation I16 := INT16ENCODE_bytes.
+Notation U32 := UINT32ENCODE_bytes.
+Notation I32 := INT32ENCODE_bytes.
+
+Lemma dd_encode_eq : forall d,
+  dd_encode d = U16 (dd_tag d) ++ U16 (dd_ref d) ++ I32 (dd_off d) ++ I32 (dd_len d).
+Proof. reflexivity. Qed.
+
+Lemma block_encode_eq : forall b,
+  block_encode b = I16 (blk_ndds b) ++ I32 (blk_next b) ++ flat_map dd_encode (blk_dds b).
+Proof. reflexivity. Qed.
+
+Lemma linked_encode_eq : forall h,
+  linked_encode h = U16 SPECIAL_LINKED ++ I32 (lh_length h) ++ I32 (lh_blen h) ++ I32 (lh_nblk h) ++ U16 (lh_ref h).
+Proof. reflexivity. Qed.
+
+Lemma ext_encode_eq : forall h,
+  ext_encode h = I16 SPECIAL_EXT ++ I32 (xh_length h) ++ I32 (xh_offset h) ++ I32 (zlen (xh_name h)) ++ xh_name h.
+Proof. reflexivity. Qed.
+
+Lemma coder_encode_eq : forall m c,
+  coder_encode m c = U16 m ++ U16 (coder_code c) ++
+    match c with
+    | CNbit nt se fo sb bl => I32 nt ++ U16 se ++ U16 fo ++ I32 sb ++ I32 bl
+    | CSkphuff a b => U32 a ++ U32 b
+    | CDeflate lv => U16 lv
+    | CSzip a b mk d e => U32 a ++ U32 b ++ U32 mk ++ [d; e]
+    | _ => []
+    end.
+Proof. intros m c. destruct c; reflexivity. Qed.
+
+Lemma comp_encode_eq : forall h,
+  comp_encode h = I16 SPECIAL_COMP ++ U16 (ch_version h) ++ I32 (ch_length h) ++ U16 (ch_ref h) ++
+                  coder_encode (ch_model h) (ch_coder h).
+Proof. reflexivity. Qed.
+
+Lemma cdim_encode_eq : forall d, cdim_encode d = I32 (cd_flag d) ++ I32 (cd_len d) ++ I32 (cd_clen d).
+Proof. reflexivity. Qed.
+
+Lemma chunk_encode_eq : forall h,
+  chunk_encode h =
+  U16 SPECIAL_CHUNKED ++ I32 (kh_hlen h) ++ [kh_version h] ++ I32 (kh_flag h) ++ I32 (kh_length h) ++
+  I32 (kh_csize h) ++ I32 (kh_ntsize h) ++ U16 (kh_tbltag h) ++ U16 (kh_tblref h) ++ U16 (kh_sptag h) ++
+  U16 (kh_spref h) ++ I32 (zlen (kh_dims h)) ++ flat_map cdim_encode (kh_dims h) ++
+  I32 (zlen (kh_fill h)) ++ kh_fill h ++
+  match kh_comp h with
+  | Some (cl, m, c) => U16 SPECIAL_COMP ++ I32 cl ++ coder_encode m c
+  | None => []
+  end.
+Proof. intro h. unfold chunk_encode. destruct (kh_comp h) as [[[cl m] c]|]; reflexivity. Qed.
+
+Definition str_i16 (s : list Z) : list Z := I16 (zlen s) ++ s.
+Definition str_u16 (s : list Z) : list Z := U16 (zlen s) ++ s.
+Definition vattr_enc (a : vattr) : list Z := I32 (va_findex a) ++ U16 (va_tag a) ++ U16 (va_ref a).
+Definition vgattr_enc (a : Z * Z) : list Z := U16 (fst a) ++ U16 (snd a).
+
+Lemma vh_body_eq : forall v,
+  vh_body v =
+  I16 (vh_interlace v) ++ I32 (vh_nvert v) ++ U16 (vh_ivsize v) ++ I16 (zlen (vh_types v)) ++
+  flat_map I16 (vh_types v) ++ flat_map U16 (vh_isizes v) ++ flat_map U16 (vh_offs v) ++
+  flat_map U16 (vh_orders v) ++ flat_map str_i16 (vh_names v) ++ str_i16 (vh_name v) ++ str_i16 (vh_class v) ++
+  U16 (vh_extag v) ++ U16 (vh_exref v) ++ I16 (vh_version v) ++ I16 (vh_more v) ++
+  (if vh_flags v =? 0 then [] else
+     U32 (vh_flags v) ++
+     if Z.land (vh_flags v) 1 =? 0 then [] else I32 (zlen (vh_attrs v)) ++ flat_map vattr_enc (vh_attrs v)).
+Proof. reflexivity. Qed.
+
+Lemma vh_tail_eq : forall v, vh_tail v = I16 (vh_version v) ++ I16 (vh_more v) ++ [0].
+Proof. reflexivity. Qed.
+
+Lemma vg_body_eq : forall g,
+  vg_body g =
+  U16 (zlen (vg_tags g)) ++ flat_map U16 (vg_tags g) ++ flat_map U16 (vg_refs g) ++
+  str_u16 (vg_name g) ++ str_u16 (vg_class g) ++ U16 (vg_extag g) ++ U16 (vg_exref g) ++
+  (if vg_flags g =? 0 then [] else
+     U32 (vg_flags g) ++
+     if Z.land (vg_flags g) 1 =? 0 then [] else I32 (zlen (vg_attrs g)) ++ flat_map vgattr_enc (vg_attrs g)).
+Proof. reflexivity. Qed.
+
+Lemma vg_tail_eq : forall g, vg_tail g = U16 (vg_out_version g) ++ U16 (vg_more g) ++ [0].
+Proof. reflexivity. Qed.
+
+(* ================================================================================================== *)
+(** * 4. Codec round trips: the specification's parsers invert the library's writers *)
+
+Opaque encn enc_by.
+Arguments dd_encode : simpl never.
+Arguments cdim_encode : simpl never.
+Arguments UINT16ENCODE_bytes : simpl never.
+Arguments INT16ENCODE_bytes : simpl never.
+Arguments UINT32ENCODE_bytes : simpl never.
+Arguments INT32ENCODE_bytes : simpl never.
+
+Lemma zlen_nonneg : forall {A} (l : list A), 0 <= zlen l.
+Proof. intros. unfold zlen. lia. Qed.
+
+Lemma zlen_app : forall {A} (a b : list A), zlen (a ++ b) = zlen a + zlen b.
+Proof. intros. unfold zlen. rewrite app_length. lia. Qed.
+
+Lemma p_bytes_app : forall s r, p_bytes (List.length s) (s ++ r) = Some (s, r).
+Proof. induction s; intro r; simpl; [reflexivity|]. rewrite IHs. reflexivity. Qed.
+
+Lemma p_count_ok : forall n (l : list Z), (n <= List.length l)%nat -> p_count (Z.of_nat n) l = Some n.
+Proof.
+  intros n l H. unfold p_count, zlen.
+  destruct (Z.of_nat n <? 0) eqn:A; [apply Z.ltb_lt in A; lia|].
+  destruct (Z.of_nat (List.length l) <? Z.of_nat n) eqn:B; [apply Z.ltb_lt in B; lia|].
+  simpl. rewrite Nat2Z.id. reflexivity.
+Qed.
+
+Lemma p_count_zlen : forall {A} (xs : list A) (l : list Z), (List.length xs <= List.length l)%nat ->
+  p_count (zlen xs) l = Some (List.length xs).
+Proof. intros. unfold zlen at 1. apply p_count_ok. assumption. Qed.
+
+Section Rep.
+  Context {A : Type} (p : list Z -> option (A * list Z)) (enc : A -> list Z) (ok : A -> Prop).
+  Hypothesis rt : forall x r, ok x -> p (enc x ++ r) = Some (x, r).
+
+  Lemma p_rep_enc : forall xs r, Forall ok xs -> p_rep p (List.length xs) (flat_map enc xs ++ r) = Some (xs, r).
+  Proof.
+    induction xs as [|x xs IH]; intros r H; simpl; [reflexivity|].
+    inversion H; subst. rewrite <- app_assoc. rewrite rt by assumption. rewrite IH by assumption. reflexivity.
+  Qed.
+
+  Lemma flat_map_len : (forall x, (1 <= List.length (enc x))%nat) ->
+    forall xs, (List.length xs <= List.length (flat_map enc xs))%nat.
+  Proof.
+    intros Hn. induction xs; simpl; [lia|]. rewrite app_length. specialize (Hn a). lia.
+  Qed.
+End Rep.
+
+Lemma p_str16_u : forall s r, zlen s < 65536 -> p_str16 (str_u16 s ++ r) = Some (s, r).
+Proof.
+  intros s r H. unfold p_str16, str_u16. rewrite <- app_assoc.
+  rewrite p_u16_enc by (unfold u16; pose proof (zlen_nonneg s); lia).
+  rewrite p_count_zlen by (rewrite app_length; lia). apply p_bytes_app.
+Qed.
+
+Lemma p_str16_i : forall s r, zlen s < 32768 -> p_str16 (str_i16 s ++ r) = Some (s, r).
+Proof.
+  intros s r H. unfold p_str16, str_i16. rewrite <- app_assoc.
+  rewrite p_u16_enc_i by (pose proof (zlen_nonneg s); lia).
+  rewrite p_count_zlen by (rewrite app_length; lia). apply p_bytes_app.
+Qed.
+
+Ltac projs := cbn [dd_tag dd_ref dd_off dd_len blk_off blk_ndds blk_next blk_dds lh_length lh_blen lh_nblk lh_ref
+  xh_length xh_offset xh_name ch_version ch_length ch_ref ch_model ch_coder cd_flag cd_len cd_clen
+  kh_hlen kh_version kh_flag kh_length kh_csize kh_ntsize kh_tbltag kh_tblref kh_sptag kh_spref kh_dims kh_fill kh_comp
+  va_findex va_tag va_ref vh_interlace vh_nvert vh_ivsize vh_types vh_isizes vh_offs vh_orders vh_names vh_name vh_class
+  vh_extag vh_exref vh_version vh_more vh_flags vh_attrs vg_tags vg_refs vg_name vg_class vg_extag vg_exref vg_flags
+  vg_attrs vg_version vg_more fst snd] in *.
+Ltac rng := unfold u16, i16, u32, i32 in *; repeat match goal with H : _ /\ _ |- _ => destruct H end;
+            try assumption; try lia.
+Ltac step :=
+  first [ rewrite p_u16_enc by rng | rewrite p_i16_enc by rng | rewrite p_u16_enc_i by rng
+        | rewrite p_i32_enc by rng | rewrite p_u32_enc by rng ]; cbv beta iota.
+
+(** ** data descriptors and DD blocks *)
+Definition dd_ok (d : dd) : Prop := u16 (dd_tag d) /\ u16 (dd_ref d) /\ i32 (dd_off d) /\ i32 (dd_len d).
+
+Lemma p_dd_enc : forall d r, dd_ok d -> p_dd (dd_encode d ++ r) = Some (d, r).
+Proof.
+  intros [t rf o n] r H. unfold dd_ok in H; projs. rewrite dd_encode_eq; projs.
+  unfold p_dd. rewrite <- !app_assoc. do 4 step. reflexivity.
+Qed.
+
+Lemma dd_encode_len : forall d, List.length (dd_encode d) = 12%nat.
+Proof. intro d. rewrite dd_encode_eq. rewrite !app_length, !enc_len_u16, !enc_len_i32. reflexivity. Qed.
+
+Lemma flat_dd_len : forall ds, zlen (flat_map dd_encode ds) = 12 * zlen ds.
+Proof.
+  induction ds; [reflexivity|]. cbn [flat_map]. rewrite zlen_app, IHds. unfold zlen. rewrite dd_encode_len. cbn [List.length]. lia.
+Qed.
+
+(** ** special-element description records *)
+Definition linked_ok (h : linked_hdr) : Prop := i32 (lh_length h) /\ i32 (lh_blen h) /\ i32 (lh_nblk h) /\ u16 (lh_ref h).
+
+Lemma p_special_linked : forall h r, linked_ok h -> p_special (linked_encode h ++ r) = Some (SLinked h, r).
+Proof.
+  intros [a b c d] r H. unfold linked_ok in H; projs. rewrite linked_encode_eq; projs.
+  unfold p_special. rewrite <- !app_assoc. rewrite p_u16_enc by (vm_compute; split; [discriminate|reflexivity]).
+  cbv beta iota. change (SPECIAL_LINKED =? sp_linked) with true. cbv iota.
+  unfold p_linked. do 4 step. reflexivity.
+Qed.
+
+Lemma p_linktable_enc : forall nx refs r, u16 nx -> Forall u16 refs ->
+  p_linktable (List.length refs) (linktable_encode nx refs ++ r) = Some (nx, refs, r).
+Proof.
+  intros nx refs r H1 H2. unfold p_linktable, linktable_encode. rewrite <- app_assoc. step.
+  rewrite (p_rep_enc p_u16 U16 u16) by (auto using p_u16_enc). reflexivity.
+Qed.
+
+Definition ext_ok (h : ext_hdr) : Prop := i32 (xh_length h) /\ i32 (xh_offset h) /\ i32 (zlen (xh_name h)).
+
+Lemma p_special_ext : forall h r, ext_ok h -> p_special (ext_encode h ++ r) = Some (SExt h, r).
+Proof.
+  intros [a b nm] r H. unfold ext_ok in H; projs. rewrite ext_encode_eq; projs.
+  unfold p_special. rewrite <- !app_assoc. rewrite p_u16_enc_i by (vm_compute; split; [discriminate|reflexivity]).
+  cbv beta iota. change (SPECIAL_EXT =? sp_linked) with false. change (SPECIAL_EXT =? sp_ext) with true. cbv iota.
+  unfold p_ext. do 3 step. rewrite p_count_zlen by (rewrite app_length; lia). rewrite p_bytes_app. reflexivity.
+Qed.
+
+Definition coder_ok (c : coder) : Prop :=
+  match c with
+  | CNone | CRle => True
+  | CNbit nt se fo sb bl => i32 nt /\ u16 se /\ u16 fo /\ i32 sb /\ i32 bl
+  | CSkphuff a b => u32 a /\ u32 b
+  | CDeflate lv => u16 lv
+  | CSzip a b m d e => u32 a /\ u32 b /\ u32 m
+  | COther k => u16 k /\ 5 < k
+  end.
+
+Lemma p_coder_enc : forall m c r, u16 m -> coder_ok c -> p_coder (coder_encode m c ++ r) = Some (m, c, r).
+Proof.
+  intros m c r Hm Hc. rewrite coder_encode_eq. unfold p_coder. rewrite <- !app_assoc. step.
+  destruct c; cbn [coder_ok] in Hc; cbn [coder_code].
+  - rewrite p_u16_enc by (vm_compute; split; [discriminate|reflexivity]). reflexivity.
+  - rewrite p_u16_enc by (vm_compute; split; [discriminate|reflexivity]). reflexivity.
+  - rewrite p_u16_enc by (vm_compute; split; [discriminate|reflexivity]). cbv beta iota.
+    change (COMP_CODE_NBIT =? 0) with false. change (COMP_CODE_NBIT =? 1) with false. change (COMP_CODE_NBIT =? 2) with true.
+    cbv iota. rewrite <- !app_assoc. do 5 step. reflexivity.
+  - rewrite p_u16_enc by (vm_compute; split; [discriminate|reflexivity]). cbv beta iota.
+    change (COMP_CODE_SKPHUFF =? 0) with false. change (COMP_CODE_SKPHUFF =? 1) with false.
+    change (COMP_CODE_SKPHUFF =? 2) with false. change (COMP_CODE_SKPHUFF =? 3) with true.
+    cbv iota. rewrite <- !app_assoc. do 2 step. reflexivity.
+  - rewrite p_u16_enc by (vm_compute; split; [discriminate|reflexivity]). cbv beta iota.
+    change (COMP_CODE_DEFLATE =? 0) with false. change (COMP_CODE_DEFLATE =? 1) with false.
+    change (COMP_CODE_DEFLATE =? 2) with false. change (COMP_CODE_DEFLATE =? 3) with false.
+    change (COMP_CODE_DEFLATE =? 4) with true.
+    cbv iota. step. reflexivity.
+  - rewrite p_u16_enc by (vm_compute; split; [discriminate|reflexivity]). cbv beta iota.
+    change (COMP_CODE_SZIP =? 0) with false. change (COMP_CODE_SZIP =? 1) with false.
+    change (COMP_CODE_SZIP =? 2) with false. change (COMP_CODE_SZIP =? 3) with false.
+    change (COMP_CODE_SZIP =? 4) with false. change (COMP_CODE_SZIP =? 5) with true.
+    cbv iota. rewrite <- !app_assoc. do 3 step. reflexivity.
+  - destruct Hc as [Hk Hk5]. step.
+    destruct (code =? 0) eqn:E0; [apply Z.eqb_eq in E0; lia|].
+    destruct (code =? 1) eqn:E1; [apply Z.eqb_eq in E1; lia|].
+    destruct (code =? 2) eqn:E2; [apply Z.eqb_eq in E2; lia|].
+    destruct (code =? 3) eqn:E3; [apply Z.eqb_eq in E3; lia|].
+    destruct (code =? 4) eqn:E4; [apply Z.eqb_eq in E4; lia|].
+    destruct (code =? 5) eqn:E5; [apply Z.eqb_eq in E5; lia|].
+    rewrite app_nil_l. reflexivity.
+Qed.
+
+Definition comp_ok (h : comp_hdr) : Prop :=
+  u16 (ch_version h) /\ i32 (ch_length h) /\ u16 (ch_ref h) /\ u16 (ch_model h) /\ coder_ok (ch_coder h).
+
+Lemma p_special_comp : forall h r, comp_ok h -> p_special (comp_encode h ++ r) = Some (SComp h, r).
+Proof.
+  intros [v n cr m c] r H. unfold comp_ok in H; projs. destruct H as (H1 & H2 & H3 & H4 & H5).
+  rewrite comp_encode_eq; projs.
+  unfold p_special. rewrite <- !app_assoc. rewrite p_u16_enc_i by (vm_compute; split; [discriminate|reflexivity]).
+  cbv beta iota. change (SPECIAL_COMP =? sp_linked) with false. change (SPECIAL_COMP =? sp_ext) with false.
+  change (SPECIAL_COMP =? sp_comp) with true. cbv iota.
+  unfold p_comp. do 3 step. rewrite p_coder_enc by assumption. reflexivity.
+Qed.
+
+Definition cdim_ok (d : chunk_dim) : Prop := i32 (cd_flag d) /\ i32 (cd_len d) /\ i32 (cd_clen d).
+
+Lemma p_cdim_enc : forall d r, cdim_ok d -> p_cdim (cdim_encode d ++ r) = Some (d, r).
+Proof.
+  intros [a b c] r H. unfold cdim_ok in H; projs. rewrite cdim_encode_eq; projs.
+  unfold p_cdim. rewrite <- !app_assoc. do 3 step. reflexivity.
+Qed.
+
+Definition chunk_ok (h : chunk_hdr) : Prop :=
+  i32 (kh_hlen h) /\ i32 (kh_flag h) /\ i32 (kh_length h) /\ i32 (kh_csize h) /\ i32 (kh_ntsize h) /\
+  u16 (kh_tbltag h) /\ u16 (kh_tblref h) /\ u16 (kh_sptag h) /\ u16 (kh_spref h) /\
+  i32 (zlen (kh_dims h)) /\ Forall cdim_ok (kh_dims h) /\ i32 (zlen (kh_fill h)) /\
+  match kh_comp h with
+  | Some (cl, m, c) => kh_flag h mod 256 = 3 /\ i32 cl /\ u16 m /\ coder_ok c
+  | None => kh_flag h mod 256 <> 3
+  end.
+
+Lemma p_special_chunked : forall h r, chunk_ok h -> p_special (chunk_encode h ++ r) = Some (SChunked h, r).
+Proof.
+  intros [hl v fl n cs nt tt tr st sr dims fv cmp] r H. unfold chunk_ok in H; projs.
+  destruct H as (H1 & H2 & H3 & H4 & H5 & H6 & H7 & H8 & H9 & H10 & H11 & H12 & H13).
+  rewrite chunk_encode_eq; projs.
+  unfold p_special. rewrite <- !app_assoc. rewrite p_u16_enc by (vm_compute; split; [discriminate|reflexivity]).
+  cbv beta iota. change (SPECIAL_CHUNKED =? sp_linked) with false. change (SPECIAL_CHUNKED =? sp_ext) with false.
+  change (SPECIAL_CHUNKED =? sp_comp) with false. change (SPECIAL_CHUNKED =? sp_chunked) with true. cbv iota.
+  unfold p_chunked. step. cbn [app]. unfold p_u8 at 1. cbv beta iota. do 9 step.
+  assert (forall x, (1 <= List.length (cdim_encode x))%nat) as L by (intro; rewrite cdim_encode_eq; rewrite !app_length, !enc_len_i32; lia).
+  rewrite p_count_zlen by (rewrite app_length; pose proof (flat_map_len cdim_encode L dims); lia).
+  rewrite (p_rep_enc p_cdim cdim_encode cdim_ok) by (auto using p_cdim_enc).
+  step. rewrite p_count_zlen by (rewrite app_length; lia). rewrite p_bytes_app.
+  destruct cmp as [[[cl m] c]|].
+  - destruct H13 as (F & C1 & C2 & C3). rewrite F. change (3 =? sp_comp) with true. cbv iota.
+    rewrite <- !app_assoc. rewrite p_u16_enc by (vm_compute; split; [discriminate|reflexivity]). cbv beta iota.
+    step. rewrite p_coder_enc by assumption. change (SPECIAL_COMP =? sp_comp) with true. reflexivity.
+  - destruct (fl mod 256 =? sp_comp) eqn:E; [apply Z.eqb_eq in E; unfold sp_comp in E; contradiction|].
+    rewrite app_nil_l. reflexivity.
 Qed.
